@@ -415,6 +415,23 @@ func TestC20(t *testing.T) {
 		report(col, t, "C20/update-params-authority", "the application wires %s as the authority of MsgUpdateParams; governance proposals are executed by the gov module account %s, so the message cannot be executed", got, b.GovAddr)
 	}
 
+	// every command needs the service behind it: the application must route each message of the
+	// module to a handler and each query method to the query server
+	for _, m := range []sdk.Msg{&types.MsgCreateFixedPriceAuction{}, &types.MsgCreateBatchAuction{}, &types.MsgCancelAuction{}, &types.MsgPlaceBid{}, &types.MsgModifyBid{}, &types.MsgAddAllowedBidder{}, &types.MsgUpdateParams{}} {
+		if b.App.MsgServiceRouter().Handler(m) == nil {
+			report(col, t, "C20/service-not-registered"+sdk.MsgTypeURL(m), "the application has no handler for %s: the command that sends it can never succeed", sdk.MsgTypeURL(m))
+		}
+	}
+	for _, q := range []string{"Params", "ListAuction", "GetAuction", "ListBid", "GetBid", "ListAllowedBidder", "GetAllowedBidder", "ListVestingQueue"} {
+		path := "/fundraising.fundraising.v1.Query/" + q
+		if b.App.GRPCQueryRouter().Route(path) == nil {
+			report(col, t, "C20/service-not-registered"+path, "the application does not route the query %s: the command that sends it can never be answered", path)
+		}
+	}
+	if t.Failed() {
+		return
+	}
+
 	// ---- tx round trips ----
 	rapid.Check(t, func(rt *rapid.T) {
 		var txCmds []cmdInfo
